@@ -141,6 +141,13 @@ def recvStepCore (st : RecvState) (ts : List String) : RecvState × List String 
         | .loseNew => { w with host := {} }
         | _ => w
       ({ st with sys := s' }, out1 ++ delta w' s'.σ.w)
+  | ["regprobe", _] =>
+    -- harness-only probe (a discarded execution on a Registry host); it interns one description
+    let d : CallSite :=
+      { kind := .span, name := "reg".toUTF8.toList.map (·.toNat), target := "regprobe".toUTF8.toList.map (·.toNat),
+        level := .info, modulePath := none, file := none, line := none, fields := ["a".toUTF8.toList.map (·.toNat)] }
+    let arena := if s.σ.w.arena.contains d then s.σ.w.arena else s.σ.w.arena ++ [d]
+    ({ st with sys := { s with σ := { s.σ with w := { s.σ.w with arena } } } }, [])
   | ["leakprobe", _, tgt] =>
     -- harness-only probe (heap growth over repeated executions); it interns six descriptions
     -- `leak0..leak5` in the process-wide arena, which the `stats` lines count
